@@ -1,9 +1,8 @@
 (* Facts about Exp/ToRows.v.
    Part A: equivariance of the export under an injective renaming of uuids.
-   Part B: decimal printing is injective; the counter loop of the readable ids terminates.
-   Part C: row ids (numbered: "1".."n"; readable: pairwise distinct).
    Part D: no uuid reaches a stripped sheet (over the regenerated exclusion table).
-   Part E: fuel and internal errors. *)
+   The row ids (decimal printing, temporary ids pairwise distinct, numbered "1".."n", readable
+   ids pairwise distinct, references resolve) are in Exp/RowIdFacts.v. *)
 From Coq Require Import String.
 From Coq Require Import List NArith Bool Arith Lia.
 From RPFT Require Import Base.Sexp Base.PyStr Base.Result Gen.Tables Exp.ToRows.
